@@ -103,6 +103,16 @@ func (dec *Decoder) decodeListAsInterface(tag byte, p *interface{}) {
 		*p = result
 		return
 	}
+	depth := 0
+	for et := t; et.Kind() == reflect.Slice; et = et.Elem() {
+		depth++
+	}
+	if depth >= 8 {
+		// every level of nesting is a slice type of its own, and reflect keeps each one for
+		// ever: lists nested deeper than any sensible data stay []interface{}
+		*p = result
+		return
+	}
 	st := reflect2.Type2(reflect.SliceOf(t)).(*reflect2.UnsafeSliceType)
 	s := st.UnsafeMakeSlice(n, n)
 	for i := 0; i < n; i++ {
